@@ -27,14 +27,14 @@ const (
 var c12Schedule = []time.Duration{time.Minute, 5 * time.Minute, 15 * time.Minute, time.Hour, 24 * time.Hour}
 
 type c12Val struct {
-	v          *Val
-	sending    bool  // pigeon running
-	every      int64 // keep-alive cadence
-	lastSent   int64
-	version    string
-	aliveUntil int64 // from accepted keep-alives (0 = never)
-	jailed     bool
-	unjailedAt int64 // height at which it was last first seen unjailed (grace start)
+	v            *Val
+	sending      bool  // pigeon running
+	every        int64 // keep-alive cadence
+	lastSent     int64
+	version      string
+	aliveUntil   int64 // from accepted keep-alives (0 = never)
+	jailed       bool
+	unjailedAt   int64 // height at which it was last first seen unjailed (grace start)
 	lastSentence time.Duration
 	lastJailAt   time.Time
 	jailedUntil  time.Time
